@@ -48,8 +48,9 @@ impl Backend {
                     },
                 };
 
-                // Range covers the whole fixture definition line
-                let range = Self::create_point_range(def_line, 0);
+                // Range covers the whole fixture definition (up to the start of the line
+                // after it), so that it contains the selection range
+                let range = Self::create_range(def_line, 0, definition.end_line as u32, 0);
 
                 let item = CallHierarchyItem {
                     name: definition.name.clone(),
@@ -226,7 +227,7 @@ impl Backend {
                         }
                     )),
                     uri: dep_uri,
-                    range: Self::create_point_range(dep_line, 0),
+                    range: Self::create_range(dep_line, 0, dep_def.end_line as u32, 0),
                     selection_range: to_range,
                     data: None,
                 };
